@@ -106,6 +106,15 @@ fn exact_key(m: MetricType, q: &[i64], v: &Option<Vec<i64>>) -> Key {
         Some(v) => match m {
             MetricType::L2 => Key::Num(q.iter().zip(v).map(|(a, b)| ((a - b) * (a - b)) as i128).sum()),
             MetricType::Dot => Key::Num(1 - q.iter().zip(v).map(|(a, b)| (a * b) as i128).sum::<i128>()),
+            // axis tables only (every vector c * e_i or zero): 1 - sign(<q,v>), NaN for a zero vector
+            MetricType::Cosine => {
+                if v.iter().all(|x| *x == 0) || q.iter().all(|x| *x == 0) {
+                    Key::NaN
+                } else {
+                    let d: i128 = q.iter().zip(v).map(|(a, b)| (a * b) as i128).sum();
+                    Key::Num(1 - d.signum())
+                }
+            }
             _ => unreachable!(),
         },
     }
@@ -171,9 +180,18 @@ struct Tbl {
     axis: bool, // every vector is c * e_i or zero: cosine distances are exactly 0, 1, 2 or NaN
 }
 
-fn gen_vec(rng: &mut Rng, rows: &[Row], dim: usize, mag: i64, with_nulls: bool) -> Option<Vec<i64>> {
+fn axis_vec(rng: &mut Rng, dim: usize, mag: i64) -> Vec<i64> {
+    let mut v = vec![0; dim];
+    let c = rng.range(1, mag as u64) as i64;
+    v[rng.below(dim as u64) as usize] = if rng.bool() { c } else { -c };
+    v
+}
+fn gen_vec(rng: &mut Rng, rows: &[Row], dim: usize, mag: i64, with_nulls: bool, axis: bool) -> Option<Vec<i64>> {
     if with_nulls && rng.chance(1, 15) {
         return None;
+    }
+    if axis {
+        return Some(if rng.chance(1, 8) { vec![0; dim] } else { axis_vec(rng, dim, mag) });
     }
     if rng.chance(1, 12) {
         return Some(vec![0; dim]);
@@ -193,12 +211,12 @@ fn mk_batch(schema: &Arc<Schema>, ety: Ety, dim: usize, rows: &[Row]) -> RecordB
     let vecs: Vec<Option<Vec<i64>>> = rows.iter().map(|r| r.vec.clone()).collect();
     RecordBatch::try_new(schema.clone(), vec![Arc::new(id), Arc::new(tag), Arc::new(fsl(ety, &vecs, dim))]).unwrap()
 }
-fn mk_rows(rng: &mut Rng, existing: &[Row], n: usize, dim: usize, mag: i64, with_nulls: bool) -> Vec<Row> {
+fn mk_rows(rng: &mut Rng, existing: &[Row], n: usize, dim: usize, mag: i64, with_nulls: bool, axis: bool) -> Vec<Row> {
     let base = existing.len() as i32;
     let mut out: Vec<Row> = vec![];
     for i in 0..n {
         let pool: Vec<Row> = existing.iter().chain(out.iter()).cloned().collect();
-        let vec = gen_vec(rng, &pool, dim, mag, with_nulls);
+        let vec = gen_vec(rng, &pool, dim, mag, with_nulls, axis);
         out.push(Row { id: base + i as i32, tag: rng.below(3) as i32, vec, deleted: false, rowid: None });
     }
     out
@@ -209,7 +227,7 @@ impl Tbl {
         mk_batch(&self.schema, self.ety, self.dim, rows)
     }
     fn new_rows(&self, rng: &mut Rng, n: usize) -> Vec<Row> {
-        mk_rows(rng, &self.rows, n, self.dim, self.mag, self.with_nulls)
+        mk_rows(rng, &self.rows, n, self.dim, self.mag, self.with_nulls, self.axis)
     }
     /// re-read the row addresses of the live rows
     async fn refresh(&mut self) -> Result<(), String> {
@@ -761,11 +779,11 @@ async fn table_history(ti: usize, dir: &std::path::Path, rng: &mut Rng, sink: &m
     let name = format!("t{ti}");
     // initial write
     let n0 = rng.range(20, 110) as usize;
-    let rows = mk_rows(rng, &[], n0, dim, mag, with_nulls);
+    let rows = mk_rows(rng, &[], n0, dim, mag, with_nulls, axis);
     let b = mk_batch(&schema, ety, dim, &rows);
     let mrf = *rng.pick(&[n0, n0 / 2 + 1, n0 / 3 + 1]);
     let ds = Dataset::write(RecordBatchIterator::new(vec![Ok(b)], schema.clone()), &uri, Some(WriteParams { max_rows_per_file: mrf, ..Default::default() })).await.map_err(es)?;
-    let mut t = Tbl { ds, schema: schema.clone(), rows, dim, ety, mag, with_nulls, metric, has_index: false, rowid2id: HashMap::new(), hist: vec![], name, nparts: 0, axis: false };
+    let mut t = Tbl { ds, schema: schema.clone(), rows, dim, ety, mag, with_nulls, metric, has_index: false, rowid2id: HashMap::new(), hist: vec![], name, nparts: 0, axis };
     t.hist.push(format!("write {n0} rows ({:?}, dim {dim}, |x|<={mag}, nulls={with_nulls}, max_rows_per_file={mrf})", ety));
     t.refresh().await?;
     sink.count(&format!("table:{:?}:{:?}", ety, metric));
@@ -843,7 +861,7 @@ async fn table_history(ti: usize, dir: &std::path::Path, rng: &mut Rng, sink: &m
             }
             t.refresh().await?;
         }
-        let maxp = if t.has_index { max_partitions(&t).await? } else { 0 };
+        let maxp = if t.has_index { max_partitions(&t).await.unwrap_or(t.nparts) } else { 0 };
         unit_streams(&t, rng, sink, st).await?;
         for _ in 0..args.vol(5, 10) {
             let m = if t.has_index { t.metric } else { *rng.pick(&[MetricType::L2, MetricType::Dot, MetricType::Cosine]) };
